@@ -68,7 +68,8 @@ fn parse_inner(literal: &[u8]) -> Option<f64> {
 }
 
 pub fn is_integer(v: f64) -> bool {
-    (v - v.round()).abs() < f64::EPSILON
+    // exact: a finite value with no fractional part (an EPSILON window also admits 1 - 2^-53)
+    v.fract() == 0.0
 }
 
 fn format_nan(case: Case) -> String {
